@@ -22,6 +22,8 @@ EXTRA = [
     ('predicate', '{ forall i in xs: (exists j in [0 to @i]: ys[@j] > @i) }'),
     ('expression', '1e3 + 1.50 + .5 + 10'), ('expression', '(not a) = b'), ('expression', 'a != (not b)'),
     ('expression', '- a ** 2'), ('expression', '(- a) ** 2'), ('expression', 'a - - b'), ('expression', '2 ** - a'),
+    ('property', 'globally: no a as M {yaw(@M) > 0}'), ('property', 'globally: a as M causes b {yaw(@M) > 0 and x = roll(@M)}'),
+    ('property', 'globally: no a as M {forall i in @M.xs: @i > yaw(@M)}'), ('property', 'after a as M {pitch(@M) = 0}: no b {x = yaw(@M)}'),
     ('specification', '# id: p1\n# title: "T 1"\nglobally: no a\n\n# description: "d"\nafter b: some c {x > 0} within 100 ms'),
 ]
 
@@ -100,6 +102,17 @@ def run(replay=None):
     for tb in pool:
         inputs.append(('property', 'globally: some a within ' + tb))
         inputs.append(('property', 'after b {x > 0}: a causes c {y = 2} within ' + tb))
+    # every spelling of a string literal that the lexer machine (spec/HplLex.tla) derives over a small character set:
+    # all texts of bounded length that are exactly one STR token (escaped quotes and backslashes, blanks, tabs)
+    from harness import lex
+    texts, lr = lex.enumerate_texts(['"', '\\', 'n', 'a', ' '], 7 if thorough else 6)
+    rep.add_tlc(lr)
+    lits = sorted(t for t, i in texts.items() if i['greedy'] is not None and len(i['greedy']) == 1 and i['greedy'][0][0] == 'STR' and t == i['greedy'][0][1])
+    rep.count('string_literal_spellings', len(lits))
+    for i, sp in enumerate(lits):
+        inputs.append(('expression', 's = ' + sp))
+        if i % 4 == 0:
+            inputs.append(('property', 'globally: no a {s = %s and t != %s}' % (sp, lits[(i * 7 + 3) % len(lits)])))
     inputs += EXTRA
     events, info = [], {}
     inputs = [(e, t) for e, t in inputs if keep(t)]
